@@ -1900,6 +1900,47 @@ func c08successNameFree(c *core.Check) {
 			return true
 		})
 	}
+	// the synthesized success field also occupies id 0 of the result struct: a throws field may not carry that id on a
+	// non-void function. Looked for: a comparison of the ID of an element of a Throws list with a constant, in the
+	// functions that validate or synthesize
+	idFound := ""
+	for _, spec := range [][2]string{{"semantic", "checker.CheckFunctions"}, {golangRel, "buildSynthesized"}, {golangRel, "Scope.buildFunction"}} {
+		fd := c.Prog.FuncDecl(spec[0], spec[1])
+		if fd == nil {
+			continue
+		}
+		info := c.Prog.Pkg(spec[0]).TypesInfo
+		ast.Inspect(fd.Body, func(n ast.Node) bool {
+			rs, ok := n.(*ast.RangeStmt)
+			if !ok || !strings.HasSuffix(rules.ExprString(rs.X), ".Throws") || rs.Value == nil {
+				return true
+			}
+			v := rules.ExprString(rs.Value)
+			ast.Inspect(rs.Body, func(m ast.Node) bool {
+				be, ok := m.(*ast.BinaryExpr)
+				if !ok {
+					return true
+				}
+				switch be.Op {
+				case token.EQL, token.NEQ, token.LEQ, token.LSS, token.GEQ, token.GTR:
+				default:
+					return true
+				}
+				for i, side := range []ast.Expr{be.X, be.Y} {
+					other := []ast.Expr{be.Y, be.X}[i]
+					if rules.ExprString(side) == v+".ID" {
+						if tv, ok := info.Types[other]; ok && tv.Value != nil {
+							idFound = spec[1]
+						}
+					}
+				}
+				return true
+			})
+			return true
+		})
+	}
+	c.Decide(idFound != "", "synth-success-name-free", golangRel+".buildSynthesized/success-id", "generator/golang/scope.go", "the id of a throws field is compared with a constant in "+idFound,
+		"nothing compares a throws field's id with the id 0 of the synthesized success field: `i32 g() throws (0: E e)` gives the result struct two fields with id 0 (duplicate ReadField0/writeField0 methods and a duplicate switch case), thriftgo exits 0 and the generated package does not compile")
 	c.Decide(found != "", "synth-success-name-free", key, "generator/golang/scope.go", "a throws field named success is handled in "+found,
 		"nothing compares a throws field's name with the synthesized \"success\": `i32 g() throws (1: E success)` gives the result struct two fields called Success (redeclared Success_DEFAULT / GetSuccess), thriftgo exits 0 and the generated package does not compile")
 }
